@@ -4,9 +4,9 @@ use super::*;
 
 pub fn run(ctx: &mut Ctx, reg: &Registry) {
     let subs = subjects(reg);
-    let nvals = ctx.t(6, 40);
+    let nvals = nvals(ctx, 6, 40);
     for s in subs.iter() {
-        if !ctx.mine(s.index) || !ctx.wants_type(&s.label) {
+        if !ctx.mine(s.index) || !ctx.wants_type(&s.label) || !slow_keep(s) {
             continue;
         }
         let mut rng = Rng::derive(ctx.seed, &format!("c04/{}", s.label));
@@ -230,6 +230,14 @@ fn check_subject(ctx: &mut Ctx, s: &Subject, rng: &mut Rng, nvals: usize) {
                         ctx.violation(&raw_sig("C04:bulk-bytes-differ-from-elementwise"), &s.label, mk("container bytes differ from the concatenation of element bytes".into(), &b));
                     } else {
                         ctx.count("bulk_write_equals_elementwise");
+                    }
+                    // Under Miri / sanitizers the recorded finding "explicit discriminants in bulk-copied
+                    // enums" is genuine undefined behaviour inside savefile (an invalid enum tag is
+                    // materialised); it is reported by the native builds, and skipped here so that the
+                    // interpreter keeps going and can report anything *else*.
+                    if (cfg!(miri) || std::env::var("VH_SANITIZER").is_ok()) && explicit && packed {
+                        ctx.count("bulk_reads_skipped_known_ub_under_sanitizer");
+                        continue;
                     }
                     // read back in bulk versus element-wise
                     let single_vals: Vec<Option<Val>> = idx
